@@ -163,3 +163,20 @@ package offline_signature
 //@   assert(SigningPublicKeySize(t) == max0(i2pd.SpecSigPubLen(int(t))))
 //@   assert(SignatureSize(t) == max0(i2pd.SpecSigLen(int(t))))
 //@ }
+
+// C15: IsExpired() of an offline signature a day either side of its expiry
+// (A-CLOCK); the body is executed, not the contract of ExpiresTime.
+//@ option C15_OfflineIsExpired nocontract *
+//@ lemma C15_OfflineIsExpired(o *OfflineSignature) {
+//@   assume(o != nil)
+//@   end := time.Unix(int64(o.expires), 0)
+//@   t0 := time.Now()
+//@   ex := o.IsExpired()
+//@   t1 := time.Now()
+//@   if end.Before(t0.Add(-24 * time.Hour)) {
+//@     assert(ex)
+//@   }
+//@   if end.After(t1.Add(24 * time.Hour)) {
+//@     assert(!ex)
+//@   }
+//@ }
